@@ -199,8 +199,9 @@ Qed.
 Lemma activate_reads_lut_read_addr x m r v i :
   lut_index r = Some i ->
   (prec_elem_ofm (r0 r cmd0_NPU_SET_OFM_PRECISION) =? 4) = false ->
+  (prec_elem_ofm (r0 r cmd0_NPU_SET_OFM_PRECISION) =? 2) = false ->
   activate x m r v = rd8 (get_bank m SHRAM) (lut_read_addr (x_lut_addr x) i (ofm_signed r) v).
-Proof. intros H H8. unfold activate, lut_read_addr. rewrite H, H8. reflexivity. Qed.
+Proof. intros H H8 H16. unfold activate, lut_read_addr. rewrite H, H8, H16. reflexivity. Qed.
 
 (* the 32-bit table (softmax): the four bytes read lie inside the 1024-byte read footprint of a 32-bit OFM *)
 Lemma lut32_read_inside_footprint (base i v : Z) :
